@@ -10,6 +10,7 @@ import os, sys, importlib
 import vlib
 from props.common import ScenarioCheck, scn_id, run_batch, SIMDRV_SRC
 from specs import nat, handshake
+from props.c07 import rerun_if_timeout
 sys.path.insert(0, os.path.join(os.path.dirname(os.path.dirname(os.path.abspath(__file__))), "gen"))
 hs_gen = importlib.import_module("hs_gen")
 
@@ -71,6 +72,7 @@ class Check(ScenarioCheck):
         self.plain = {}
 
     def evaluate(self, r):
+        r = rerun_if_timeout(self, r)
         mism, fails, crash = ScenarioCheck.evaluate(self, r)
         i = scn_id(r["scn"])
         if r["impl"] is None: return (mism, fails, crash)
